@@ -3,6 +3,7 @@ import RsslVerif.Lemmas.Meta
 import RsslVerif.Lemmas.MetaReach
 import RsslVerif.Lemmas.MetaReachTerm
 import RsslVerif.Lemmas.MetaFront
+import RsslVerif.Lemmas.MetaTotal
 import RsslVerif.Thm.C15
 /-!
 # C05 — reflection metadata agrees with the emitted source
@@ -409,6 +410,105 @@ theorem annotations_match_metadata_hlsl {p : Params} {dflt : Nat} :
                     rcases List.mem_cons.1 hx with rfl | hx
                     · exact hprint
                     · exact hrest.2 x hx
+
+open RsslVerif.Lemmas.MetaTotal RsslVerif.Lemmas.Slots in
+/-- **The HLSL metadata builder is total on the allocator's output.**  For every module whose object-typed globals
+    use kinds that have a descriptor type, every default group and every parameter set `compile()` can pass:
+    once `assign_api_bindings` returned, `analyse_bindings` + `generate_inline_constant_buffers` return a
+    `PipelineDescription` — `bind_groups[buffer.set]` is in range and none of the three asserts
+    (`offset + 8 <= size`, `size == found_size`, `inline_constants == None`) can fire, because per bind group the
+    inline entries account for exactly the bytes the allocator handed out. -/
+theorem hlsl_metadata_total {p : Params} (hp : ParamsOk p) {dflt : Nat} {ds : List MDecl} {res : Result}
+    (h : assign p dflt (ds.map MDecl.toSlot) = .ok res)
+    (hdesc : ∀ n s ss k arr bl st, MDecl.global n s ss (some k) arr bl st ∈ ds → (hlslDescType k).isSome) :
+    ∃ groups, hlslMeta p dflt ds = .ok groups := by
+  have hpw := (RsslVerif.Thm.C06.inline_buffers_correct hp h).2.2
+  have hpos := (RsslVerif.Thm.C06.inline_buffers_correct hp h).1
+  have hev : ∀ d ∈ ds, ∀ ob, ∃ o, hlslEvent d ob = .ok o := by
+    intro d hd ob
+    cases d with
+    | other => exact ⟨none, rfl⟩
+    | cbuffer n s => cases ob <;> exact ⟨_, rfl⟩
+    | global n s ss k arr bl st =>
+      have hdo : ∃ dt, descOf hlslDescType hlslNonObjectDescType k = .ok dt := by
+        cases k with
+        | none => exact ⟨_, rfl⟩
+        | some k =>
+          have := hdesc n s ss k arr bl st hd
+          cases hk : hlslDescType k with
+          | none => simp [hk] at this
+          | some dt => exact ⟨dt, by simp [descOf, hk]⟩
+      obtain ⟨dt, hdt⟩ := hdo
+      cases ob with
+      | none => exact ⟨none, by simp [hlslEvent, hdt]⟩
+      | some b =>
+        exact ⟨some (b.set, { name := n, loc := b.loc, descType := dt, count := countOf arr, bindless := bl,
+                              used := true, staticSampler := ss }), by simp [hlslEvent, hdt]⟩
+  unfold hlslMeta
+  rw [h]
+  simp only
+  obtain ⟨evs, hevs⟩ := events_total ds hev res.bindings 0
+  rw [hevs]
+  simp only
+  unfold assign at h
+  split at h
+  · cases h
+  · rename_i st bs hrun
+    simp only [Except.ok.injEq] at h
+    subst h
+    have hinv := run_events_inv hp ds State.init st bs 0 evs [] hrun hevs inlInv_nil
+    apply setInlines_total _ _ st.inline.get hinv hpw
+    · intro b hb
+      have hb' := hb
+      simp only [inlineBuffers] at hb'
+      rw [mem_sortBufs] at hb'
+      simp only [List.mem_map] at hb'
+      obtain ⟨g, _, rfl⟩ := hb'
+      exact ⟨rfl, (hpos _ hb).2.2⟩
+    · intro b _ grp hg
+      exact registerAll_noIC evs [] (by intro g hg; cases hg) grp (List.mem_of_getElem? hg)
+
+open RsslVerif.Lemmas.MetaTotal RsslVerif.Lemmas.Slots in
+/-- **Metal: metadata, or the clean refusal.**  Without buffer addresses (Metal's parameter set), for every module
+    whose object-typed globals use kinds that have a descriptor type: once the allocator returned, the Metal
+    metadata builder either returns a `PipelineDescription` or refuses the file with `UnsupportedBindGroupIndex`
+    (some binding sits in a group without argument buffer struct) — `ARGUMENT_BUFFER_NAMES[i]` is never indexed
+    out of range and the `panic!()` of the sort comparator (inline constant in an argument buffer) cannot fire. -/
+theorem msl_metadata_total_or_refused {p : Params} (hsba : p.supportBufferAddress = false) {dflt : Nat}
+    {usedAt : Nat → Bool} {ds : List MDecl} {res : Result}
+    (h : assign p dflt (ds.map MDecl.toSlot) = .ok res)
+    (hdesc : ∀ n s ss k arr bl st, MDecl.global n s ss (some k) arr bl st ∈ ds → (mslDescType k).isSome) :
+    (∃ groups, mslMeta p dflt usedAt ds = .ok groups) ∨
+    mslMeta p dflt usedAt ds = .error "UnsupportedBindGroupIndex" := by
+  have hp : ParamsOk p := by intro hb; rw [hsba] at hb; cases hb
+  unfold mslMeta
+  rw [h]
+  simp only
+  rcases events_msl_cases usedAt (by decide) ds hdesc res.bindings 0 with ⟨evs, hev, hlt⟩ | herr
+  · left
+    rw [hev]
+    simp only
+    have hlen : (registerAll evs []).length ≤ argumentBufferNames.length :=
+      length_registerAll_le evs [] hlt (by simp)
+    rw [if_neg (by omega)]
+    have hag := RsslVerif.Thm.C06.binding_complete hp h
+    have hgood := assign_good h
+    have hidx := all_index hsba _ _ hag hgood
+    refine ⟨registerAll evs [], ?_⟩
+    apply sortGroups_id
+    intro grp hgrp
+    obtain ⟨k, hk⟩ := List.getElem?_of_mem hgrp
+    have hb : bindingsAt (registerAll evs []) k = grp.bindings := by simp [bindingsAt, hk]
+    rw [bindingsAt_registerAll, bindingsAt_nil, List.nil_append] at hb
+    have hl := events_locs (fun i => mslEvent_ok (usedAt i)) k ds res.bindings 0 evs hag hev
+    have hr := indexRanges_locs (p := p) (dflt := dflt) k _ _ hag hidx
+    have htile := RsslVerif.Thm.C06.index_ranges_tile hp h k
+    apply sortGroup_id (ks := (RsslVerif.Spec.Slots.indexRanges p k (ds.map MDecl.toSlot) res.bindings).map (·.1))
+    · rw [← hb, List.map_map, List.map_map]
+      exact hl.trans hr.symm
+    · exact (List.pairwise_map).2 (tiles_sorted htile).2
+  · right
+    rw [herr]
 
 /-! ## descriptor_kind_count -/
 
